@@ -221,6 +221,10 @@ class Foundry:
         raise refevm.Unsupported(f"hevm cheatcode {s:08x}")
 
     def svm(self, evm, f, kind, ca, value, data):
+        if data[:4] == bytes.fromhex("dc00ba4d"):
+            # enableSymbolicStorage(address): the account's *persistent* storage becomes an arbitrary input; nothing observable changes otherwise
+            self.feat("enableSymbolicStorage")
+            return True, b""
         # fresh symbolic values are *inputs*: read from the tape
         if not self.tape:
             raise refevm.Unsupported("svm.create* without an input tape")
